@@ -190,7 +190,16 @@ fn run_entry(case: &Case, scratch: &std::path::Path) -> Result<String, String> {
 		Entry::Json => versatiles_core::json::parse_json_str(&text()).map(|v| v.stringify()).map_err(e2s),
 		Entry::JsonBlob => versatiles_core::json::JsonValue::parse_blob(&Blob::from(case.data.clone())).map(|v| v.stringify()).map_err(e2s),
 		Entry::TileJson => versatiles_core::tilejson::TileJSON::try_from(text().as_str()).map(|t| t.as_string()).map_err(e2s),
-		Entry::TileJsonBlob => Ok(versatiles_core::tilejson::TileJSON::try_from_blob_or_default(&Blob::from(case.data.clone())).as_string()),
+		Entry::TileJsonBlob => {
+			let blob = Blob::from(case.data.clone());
+			// the conversion with an error channel, and the one the container readers use
+			let strict = versatiles_core::tilejson::TileJSON::try_from(&blob).map(|t| t.as_string());
+			let lenient = versatiles_core::tilejson::TileJSON::try_from_blob_or_default(&blob).as_string();
+			match strict {
+				Ok(s) => Ok(format!("{s} / {lenient}")),
+				Err(e) => Err(e2s(e)),
+			}
+		}
 		Entry::Csv => {
 			let mut rows = 0;
 			let cur = std::io::Cursor::new(case.data.clone());
@@ -250,10 +259,20 @@ fn run_entry(case: &Case, scratch: &std::path::Path) -> Result<String, String> {
 			for (name, data) in &case.files {
 				let _ = std::fs::write(scratch.join(name), data);
 			}
+			let as_blob = case.data.len() % 2 == 1;
+			let dir = scratch.to_path_buf();
 			util::block_on(async {
-				match versatiles_container::get_reader(p.to_str().unwrap()).await {
-					Ok(r) => exercise(r).await,
-					Err(e) => Err(e2s(e)),
+				if as_blob {
+					// the variant that takes the text from a data reader (VPL fetched from elsewhere)
+					match versatiles_container::PipelineReader::open_reader(Box::new(DataReaderBlob::from(case.data.clone())), &dir).await {
+						Ok(r) => exercise(Box::new(r)).await,
+						Err(e) => Err(e2s(e)),
+					}
+				} else {
+					match versatiles_container::get_reader(p.to_str().unwrap()).await {
+						Ok(r) => exercise(r).await,
+						Err(e) => Err(e2s(e)),
+					}
 				}
 			})
 		}
@@ -1036,10 +1055,33 @@ fn cases(entry: Entry) -> BoxedStrategy<Case> {
 					};
 					Case { entry, origin: format!("vpl+tile:{}", if mutated { "mutated" } else { "odd-content" }), data: text.into_bytes(), files: vec![("data.csv".to_string(), data_csv()), ("tile.pbf".to_string(), tile)] }
 				});
+				// pipeline files that read pipeline files: chains of n files, ending in a source, in the
+				// first file again (a cycle) or in the file itself
+				let including = (0usize..20, 0u8..3, any::<bool>()).prop_map(move |(n, end, overlay)| {
+					let wrap = |f: &str| if overlay { format!("from_overlayed [ from_container filename=\"{f}\", from_debug format=pbf ]") } else { format!("from_container filename=\"{f}\"") };
+					let name = |i: usize| if i == 0 { "p.vpl".to_string() } else { format!("inc{i}.vpl") };
+					let mut files = vec![];
+					for i in 0..=n {
+						let text = if i < n {
+							wrap(&name(i + 1))
+						} else {
+							match end {
+								0 => "from_debug format=pbf".to_string(),
+								1 => wrap("p.vpl"),
+								_ => wrap(&name(i)),
+							}
+						};
+						files.push((name(i), text.into_bytes()));
+					}
+					let data = files.remove(0).1;
+					// an even length selects the entry that opens the file by its path
+					let data = if data.len() % 2 == 1 { [data, b" ".to_vec()].concat() } else { data };
+					Case { entry, origin: format!("vpl-including:{}", ["ends-in-source", "cycle", "itself"][end as usize]), data, files }
+				});
 				if entry == Entry::Factory {
 					prop_oneof![6 => text_case(vpl_text(), "vpl"), 4 => with_csv, 4 => with_tile, 1 => random, 1 => deep].boxed()
 				} else {
-					prop_oneof![6 => text_case(vpl_text(), "vpl"), 4 => with_csv, 1 => random, 1 => deep].boxed()
+					prop_oneof![6 => text_case(vpl_text(), "vpl"), 4 => with_csv, 2 => including, 1 => random, 1 => deep].boxed()
 				}
 			} else {
 				prop_oneof![8 => text_case(vpl_text(), "vpl"), 1 => random, 1 => deep].boxed()
@@ -1206,6 +1248,20 @@ fn cases(entry: Entry) -> BoxedStrategy<Case> {
 /// relative member names of a tile directory / tar archive, well-formed and not
 fn dir_names() -> BoxedStrategy<String> {
 	prop_oneof![
+				// columns and rows at the ends of the u32 range and just beyond the level
+				1 => (0u8..34, 0u8..6, 0u8..6, prop_oneof![Just(".png"), Just(".pbf"), Just(".pbf.gz")]).prop_map(|(z, a, b, e)| {
+					let edge = |k: u8| -> u64 {
+						match k {
+							0 => u32::MAX as u64,
+							1 => u32::MAX as u64 - 1,
+							2 => 1u64 << z.min(32),
+							3 => (1u64 << z.min(32)) - 1,
+							4 => u32::MAX as u64 + 1,
+							_ => 0,
+						}
+					};
+					format!("{z}/{}/{}{e}", edge(a), edge(b))
+				}),
 				4 => (0u8..34, any::<u32>(), any::<u32>(), prop_oneof![Just(".png"), Just(".pbf"), Just(".pbf.gz"), Just(".jpg.br"), Just(".json"), Just(""), Just(".PNG"), Just(".png.gz.br")]).prop_map(|(z, x, y, e)| format!("{z}/{x}/{y}{e}")),
 				1 => ("[0-9a-z+-]{1,4}", "[0-9a-z+-]{1,12}", "[0-9a-z.+-]{1,14}").prop_map(|(a, b, c)| format!("{a}/{b}/{c}")),
 				// stray members with multi-byte characters at every distance from the end of the name
@@ -1331,7 +1387,7 @@ fn main() {
 	let mut check = Check::from_args(
 		"C19",
 		"exploration",
-		"per entry point (JSON str/blob, TileJSON str/blob, CSV, GeoValue, VPL, pipeline factory incl. CSV side file, .vpl file, vector tile, versatiles/PMTiles from memory and from file, MBTiles, tar, directory): valid encodings produced by the harness generators and independent encoders, mutated by bit flips, boundary-value bytes / big- and little-endian integers / varints, truncation, insertion, deletion, duplication, splices of a second valid input, multi-byte and broken UTF-8 insertion; for versatiles and PMTiles additionally mutations of the raw block index / tile index / directories / header / metadata BEFORE compression (so that the corruption passes the compression layer); nesting depth up to 256; vector tiles that decode but are odd in content (odd number of tag words, tag ids beyond the tables, geometry deltas at the ends of the 64-bit range), as input of the vector tile entry and as the tile the in-memory source of the pipeline-factory entry delivers to vectortiles_update_properties / from_vectortiles_merged before the tile is looked up; plus uniformly random bytes. Each case runs in a worker process on a 2 MiB stack under a tracking allocator. Violations: panic, process death (abort, stack overflow, signal), peak heap growth > 256 MiB for inputs <= 256 KiB. A timeout (3 s quick / 10 s thorough) is counted, not reported. non-trivial = derived from a valid encoding and accepted, or rejected with another message than the entry point's first structural check",
+		"per entry point (JSON str/blob, TileJSON str/blob, CSV, GeoValue, VPL, pipeline factory incl. CSV side file, .vpl file, vector tile, versatiles/PMTiles from memory and from file, MBTiles, tar, directory): valid encodings produced by the harness generators and independent encoders, mutated by bit flips, boundary-value bytes / big- and little-endian integers / varints, truncation, insertion, deletion, duplication, splices of a second valid input, multi-byte and broken UTF-8 insertion; for versatiles and PMTiles additionally mutations of the raw block index / tile index / directories / header / metadata BEFORE compression (so that the corruption passes the compression layer); nesting depth up to 256; vector tiles that decode but are odd in content (odd number of tag words, tag ids beyond the tables, geometry deltas at the ends of the 64-bit range), as input of the vector tile entry and as the tile the in-memory source of the pipeline-factory entry delivers to vectortiles_update_properties / from_vectortiles_merged before the tile is looked up; TileJSON blobs through both conversions; pipeline text through the file path and through open_reader (data reader), with chains (up to 19 files) and cycles of pipeline files that read each other; directory entries with columns / rows at the ends of the u32 range and just beyond the level; plus uniformly random bytes. Each case runs in a worker process on a 2 MiB stack under a tracking allocator. Violations: panic, process death (abort, stack overflow, signal), peak heap growth > 256 MiB for inputs <= 256 KiB. A timeout (3 s quick / 10 s thorough) is counted, not reported. non-trivial = derived from a valid encoding and accepted, or rejected with another message than the entry point's first structural check",
 	);
 	check.assume("bulk tile streams over corrupted containers are outside the statement; liveness is not asserted (timeouts are counted)");
 	vt::engine::watchdog(7200);
